@@ -194,6 +194,10 @@ fn runs(out: &mut dyn Write, tier: &str, rng: &mut Rng, st: &mut Stats, tag: &st
     }
 }
 
+fn show_free(pf: &rsbdd::parser::ParsedFormula) -> String {
+    pf.free_vars.iter().map(|v| hex(v.name.as_bytes())).collect::<Vec<_>>().join(",")
+}
+
 fn show_vars(pf: &rsbdd::parser::ParsedFormula) -> String {
     pf.vars.iter().map(|v| format!("{}:{}", hex(v.name.as_bytes()), v.id)).collect::<Vec<_>>().join(",")
 }
@@ -209,6 +213,7 @@ pub fn c11(out: &mut dyn Write, tier: &str, rng: &mut Rng, st: &mut Stats) {
         };
         let res_d = match eval_guarded(&default) { Ok(b) => show_ns(&b), Err(_) => "PANIC".to_string() };
         let vars_d = show_vars(&default);
+        let free_d = show_free(&default);
         if i % 2 == 0 {
             // API form: NamedSymbol vector with distinct ids (permutation / sparse ids / extra names)
             let mut pool: Vec<String> = names.clone();
@@ -221,12 +226,12 @@ pub fn c11(out: &mut dyn Write, tier: &str, rng: &mut Rng, st: &mut Stats) {
             // the ids are distinct; the vector need not be sorted by them (the last element is then not the largest id)
             if rng.chance(1, 2) { for k in (1..ord.len()).rev() { let j = rng.below(k as u64 + 1) as usize; ord.swap(k, j); } st.hit("api.unsorted-ids"); }
             let ord_field = ord.iter().map(|v| format!("{}:{}", hex(v.name.as_bytes()), v.id)).collect::<Vec<_>>().join(",");
-            let (vars_o, res_o) = match parse_text(text.as_bytes(), Some(ord)) {
-                crate::formula::Parsed::Ok(pf) => (show_vars(&pf), match eval_guarded(&pf) { Ok(b) => show_ns(&b), Err(_) => "PANIC".to_string() }),
-                crate::formula::Parsed::Err(_) => (String::new(), "ERR".to_string()),
-                crate::formula::Parsed::Panic(_) => (String::new(), "PANIC".to_string()),
+            let (vars_o, res_o, free_o) = match parse_text(text.as_bytes(), Some(ord)) {
+                crate::formula::Parsed::Ok(pf) => (show_vars(&pf), match eval_guarded(&pf) { Ok(b) => show_ns(&b), Err(_) => "PANIC".to_string() }, show_free(&pf)),
+                crate::formula::Parsed::Err(_) => (String::new(), "ERR".to_string(), "ERR".to_string()),
+                crate::formula::Parsed::Panic(_) => (String::new(), "PANIC".to_string(), "ERR".to_string()),
             };
-            writeln!(out, "C11|order|{}|{}|{}||{}|{}|{}|{}|-", hex(text.as_bytes()), classes_of(&text), if ord_field.is_empty() { "-".to_string() } else { ord_field }, vars_d, res_d, vars_o, res_o).unwrap();
+            writeln!(out, "C11|order|{}|{}|{}||{}|{}|{}|{}|-|{}|{}", hex(text.as_bytes()), classes_of(&text), if ord_field.is_empty() { "-".to_string() } else { ord_field }, vars_d, res_d, vars_o, res_o, free_d, free_o).unwrap();
             st.hit("api");
         } else {
             // CLI form: ordering file
@@ -235,10 +240,10 @@ pub fn c11(out: &mut dyn Write, tier: &str, rng: &mut Rng, st: &mut Stats) {
                 let mut rd: &[u8] = &ordering;
                 rsbdd::parser::SymbolicBDD::tokenize(&mut rd, None).map(|ts| rsbdd::parser::ParsedFormula::extract_vars(&ts)).unwrap_or_default()
             };
-            let (vars_o, res_o) = match parse_text(text.as_bytes(), Some(ord_syms)) {
-                crate::formula::Parsed::Ok(pf) => (show_vars(&pf), match eval_guarded(&pf) { Ok(b) => show_ns(&b), Err(_) => "PANIC".to_string() }),
-                crate::formula::Parsed::Err(_) => (String::new(), "ERR".to_string()),
-                crate::formula::Parsed::Panic(_) => (String::new(), "PANIC".to_string()),
+            let (vars_o, res_o, free_o) = match parse_text(text.as_bytes(), Some(ord_syms)) {
+                crate::formula::Parsed::Ok(pf) => (show_vars(&pf), match eval_guarded(&pf) { Ok(b) => show_ns(&b), Err(_) => "PANIC".to_string() }, show_free(&pf)),
+                crate::formula::Parsed::Err(_) => (String::new(), "ERR".to_string(), "ERR".to_string()),
+                crate::formula::Parsed::Panic(_) => (String::new(), "PANIC".to_string(), "ERR".to_string()),
             };
             // -r / -o round trip through the real binary
             let t_args: Vec<String> = vec!["-t".into()];
@@ -247,8 +252,8 @@ pub fn c11(out: &mut dyn Write, tier: &str, rng: &mut Rng, st: &mut Stats) {
             let exported = run_tool(text.as_bytes(), 0, Some(&ordering), &r_args, "c11");
             let r2 = run_tool(text.as_bytes(), 0, Some(&exported.stdout), &t_args, "c11");
             let roundtrip = if r1.class == "ok" && exported.class == "ok" { if r2.class == "ok" && r1.stdout == r2.stdout { "1" } else { "0" } } else { "-" };
-            writeln!(out, "C11|order|{}|{}|T:{}|{}|{}|{}|{}|{}|{}", hex(text.as_bytes()), classes_of(&text), hex(&ordering),
-                std::str::from_utf8(&ordering).map(classes_of).unwrap_or_default(), vars_d, res_d, vars_o, res_o, roundtrip).unwrap();
+            writeln!(out, "C11|order|{}|{}|T:{}|{}|{}|{}|{}|{}|{}|{}|{}", hex(text.as_bytes()), classes_of(&text), hex(&ordering),
+                std::str::from_utf8(&ordering).map(classes_of).unwrap_or_default(), vars_d, res_d, vars_o, res_o, roundtrip, free_d, free_o).unwrap();
             st.hit("cli");
             st.hit(&format!("roundtrip.{}", roundtrip));
         }
